@@ -69,3 +69,27 @@ Example C13_recursion_witness :
   validate bad = false /\ validate_norec bad = true /\ validate good = true.
 Proof. vm_compute. repeat split. Qed.
 Print Assumptions C13_recursion.
+
+(* Two more clauses - "duplicate message or union indices, a message index of zero" - are settled by ReadFile itself, and
+   for EVERY input (front/ParseWf.v, a postcondition carried through the parser's monadic code): whatever File the parser
+   model returns has, in every message (top-level or a union branch), distinct field indices none of which is 0, and in every
+   union distinct branch indices. *)
+Require Import Bebop.front.ParseWf.
+Definition C13_indices_statement : Prop :=
+  forall input fails f s, read_file input fails = POk f s ->
+    (forall m, In m (messages f) -> NoDup (map fst (m_fields m)) /\ ~ In 0%N (map fst (m_fields m))) /\
+    (forall u, In u (unions f) -> NoDup (map fst (un_fields u)) /\
+       forall p m, In p (un_fields u) -> u_msg (snd p) = Some m -> NoDup (map fst (m_fields m)) /\ ~ In 0%N (map fst (m_fields m))).
+Theorem C13_indices : C13_indices_statement.
+Proof.
+  intros input fails f s E. destruct (read_file_wf input fails f s E) as [Hm Hu]. rewrite Forall_forall in Hm, Hu. split.
+  - intros m Hin. exact (Hm m Hin).
+  - intros u Hin. destruct (Hu u Hin) as [Hn Hb]. split; [exact Hn|]. intros p m Hp Em. rewrite Forall_forall in Hb.
+    specialize (Hb p Hp). unfold ubranch_wf in Hb. rewrite Em in Hb. exact Hb.
+Qed.
+(* not vacuous: `message M { 1 -> int32 a; 2 -> int32 b; }` is accepted; with the second index 1, or the first 0, it is not *)
+Example C13_indices_witness :
+  let txt i j := [109;101;115;115;97;103;101;32;77;32;123;10; i;32;45;62;32;105;110;116;51;50;32;97;59;10; j;32;45;62;32;105;110;116;51;50;32;98;59;10; 125;10]%N in
+  (exists f s, read_file (txt 49 50)%N false = POk f s) /\ read_file (txt 49 49)%N false = PErr /\ read_file (txt 48 50)%N false = PErr.
+Proof. cbv zeta. split; [eexists; eexists; vm_compute; reflexivity|split; vm_compute; reflexivity]. Qed.
+Print Assumptions C13_indices.
